@@ -30,11 +30,11 @@ theorem run_mono_le (pf : Nat) (prog : List Instr) (text : Bytes) {n n' : Nat} {
   rwa [Nat.add_sub_cancel' hle] at this
 
 /-- one attempt: the VM on the code of `e` returns what the specification's `attempt` returns -/
-theorem attempt_sim (pf : Nat) (text : Bytes) (lf : Nat) (e : Expr) (hcf : CallFree e) (pos line col : Nat)
+theorem attempt_sim (pf : Nat) (text : Bytes) (lf : Nat) (e : Expr) (hcf : CallFree e) (nid : Nat) (pos line col : Nat)
     (r : SRes) (h : attempt text lf e pos line col = some r) :
-    Ev pf (genCF e 0 0).1 text (initState pos line col) r := by
-  have hat : At (genCF e 0 0).1 0 (genCF e 0 0).1 := by intro i _; simp
-  have := sim (pf := pf) (prog := (genCF e 0 0).1) (text := text) (lf := lf) e hcf 0 0 hat
+    Ev pf (genCF e 0 nid).1 text (initState pos line col) r := by
+  have hat : At (genCF e 0 nid).1 0 (genCF e 0 nid).1 := by intro i _; simp
+  have := sim (pf := pf) (prog := (genCF e 0 nid).1) (text := text) (lf := lf) e hcf 0 nid hat
     ⟨pos, line, col, [], .nil⟩ [] [] [] [] (fun d _ => some (.matched d)) (fun _ => some .fail) r
     (by intro l hl; simp at hl) ?_ ?_ h
   · exact this
@@ -60,10 +60,10 @@ theorem readAt_one (text : Bytes) (pos : Nat) (h : pos < text.length) : ∃ b, r
   | cons b rest => exact ⟨b, by simp⟩
 
 /-- the scan loop of the VM model (amount `all`) follows the specification's scan -/
-theorem scan_sim (pf : Nat) (text : Bytes) (lf : Nat) (e : Expr) (hcf : CallFree e) :
+theorem scan_sim (pf : Nat) (text : Bytes) (lf : Nat) (e : Expr) (hcf : CallFree e) (nid : Nat) :
     ∀ f acc pos line col A, pos < text.length → scanAll text lf e f acc pos line col = some A →
       ∃ vf0, ∀ vf, vf0 ≤ vf →
-        scan pf vf (genCF e 0 0).1 amtAll text f acc acc.length pos line col = some (.ok A) := by
+        scan pf vf (genCF e 0 nid).1 amtAll text f acc acc.length pos line col = some (.ok A) := by
   intro f
   induction f with
   | zero => intro acc pos line col A _ h; simp [scanAll] at h
@@ -75,7 +75,7 @@ theorem scan_sim (pf : Nat) (text : Bytes) (lf : Nat) (e : Expr) (hcf : CallFree
     have hstep1 : ∀ (A : List Match), scanAll.step1 text lf e f acc pos line col = some A →
         ∃ vf0, ∀ vf, vf0 ≤ vf →
           (if pos + 1 ≥ text.length then some (Res.ok acc)
-           else scan pf vf (genCF e 0 0).1 amtAll text f acc acc.length (pos + 1)
+           else scan pf vf (genCF e 0 nid).1 amtAll text f acc acc.length (pos + 1)
              (if b = nl then (line + 1, 1) else (line, col + 1)).1
              (if b = nl then (line + 1, 1) else (line, col + 1)).2) = some (.ok A) := by
       intro A hs
@@ -96,7 +96,7 @@ theorem scan_sim (pf : Nat) (text : Bytes) (lf : Nat) (e : Expr) (hcf : CallFree
     split at h
     · simp at h
     · next d hatt =>
-      obtain ⟨n, o, hrun, hres⟩ := attempt_sim pf text lf e hcf pos line col _ hatt
+      obtain ⟨n, o, hrun, hres⟩ := attempt_sim pf text lf e hcf nid pos line col _ hatt
       -- `o` is a success whose data is `d`
       have ho : ∃ c, o = .success c ∧ c.data = d := by
         cases o with
@@ -109,7 +109,7 @@ theorem scan_sim (pf : Nat) (text : Bytes) (lf : Nat) (e : Expr) (hcf : CallFree
       split at h
       · next hne =>
         -- non-empty match: reported
-        have hcls : ∀ vf, n ≤ vf → classify (run pf (genCF e 0 0).1 text vf (initState pos line col)) = .hit c := by
+        have hcls : ∀ vf, n ≤ vf → classify (run pf (genCF e 0 nid).1 text vf (initState pos line col)) = .hit c := by
           intro vf hle
           rw [run_mono_le pf _ text hrun hle]
           simp only [classify, hcur, hne, if_true]
@@ -135,7 +135,7 @@ theorem scan_sim (pf : Nat) (text : Bytes) (lf : Nat) (e : Expr) (hcf : CallFree
           simpa [amtAll] using this
       · next hne =>
         -- empty match: advance one byte
-        have hcls : ∀ vf, n ≤ vf → classify (run pf (genCF e 0 0).1 text vf (initState pos line col)) = .miss := by
+        have hcls : ∀ vf, n ≤ vf → classify (run pf (genCF e 0 nid).1 text vf (initState pos line col)) = .miss := by
           intro vf hle
           rw [run_mono_le pf _ text hrun hle]
           simp only [classify, hcur]
@@ -148,7 +148,7 @@ theorem scan_sim (pf : Nat) (text : Bytes) (lf : Nat) (e : Expr) (hcf : CallFree
           hcls vf (Nat.le_trans (Nat.le_max_left _ _) hle), hb]
         exact hv vf (Nat.le_trans (Nat.le_max_right _ _) hle)
     · next hatt =>
-      obtain ⟨n, o, hrun, hres⟩ := attempt_sim pf text lf e hcf pos line col _ hatt
+      obtain ⟨n, o, hrun, hres⟩ := attempt_sim pf text lf e hcf nid pos line col _ hatt
       have ho : o = .fail := by
         cases o with
         | success c => simp [outcomeRes] at hres
@@ -156,7 +156,7 @@ theorem scan_sim (pf : Nat) (text : Bytes) (lf : Nat) (e : Expr) (hcf : CallFree
         | panic t => simp [outcomeRes] at hres
         | pfuel => simp [outcomeRes] at hres
       subst ho
-      have hcls : ∀ vf, n ≤ vf → classify (run pf (genCF e 0 0).1 text vf (initState pos line col)) = .miss := by
+      have hcls : ∀ vf, n ≤ vf → classify (run pf (genCF e 0 nid).1 text vf (initState pos line col)) = .miss := by
         intro vf hle
         rw [run_mono_le pf _ text hrun hle]
         rfl
@@ -168,18 +168,18 @@ theorem scan_sim (pf : Nat) (text : Bytes) (lf : Nat) (e : Expr) (hcf : CallFree
       exact hv vf (Nat.le_trans (Nat.le_max_right _ _) hle)
 
 /-- `findMatches` (amount `all`) on the generated code returns `Spec.findAll` -/
-theorem findMatches_spec (pf : Nat) (text : Bytes) (e : Expr) (hcf : CallFree e) (hne : codeLen e ≠ 0)
+theorem findMatches_spec (pf : Nat) (text : Bytes) (e : Expr) (hcf : CallFree e) (nid : Nat) (hne : codeLen e ≠ 0)
     (A : List Match) (h : findAll text e = some A) :
-    ∃ vf0, ∀ vf, vf0 ≤ vf → findMatches pf vf (genCF e 0 0).1 amtAll text = some (.ok A) := by
+    ∃ vf0, ∀ vf, vf0 ≤ vf → findMatches pf vf (genCF e 0 nid).1 amtAll text = some (.ok A) := by
   unfold findAll at h
   split at h
   · next h0 =>
     simp only [Option.some.injEq] at h; subst h
     exact ⟨0, fun vf _ => by simp [findMatches, h0]⟩
   · next h0 =>
-    obtain ⟨vf0, hv⟩ := scan_sim pf text _ e hcf _ [] 0 1 1 A (by omega) h
+    obtain ⟨vf0, hv⟩ := scan_sim pf text _ e hcf nid _ [] 0 1 1 A (by omega) h
     refine ⟨vf0, fun vf hle => ?_⟩
-    have hl : (genCF e 0 0).1.length ≠ 0 := by rw [genCF_length]; exact hne
+    have hl : (genCF e 0 nid).1.length ≠ 0 := by rw [genCF_length]; exact hne
     simp only [findMatches, h0, hl, if_false]
     exact hv vf hle
 
